@@ -247,3 +247,41 @@ func mutatesBoxParam(p *Prog, g *ssa.Function, k, depth int) bool {
 	}
 	return mut
 }
+
+// ruleOuterLink: box.outer links a child to the box it was cut from; what the child consumes is charged along that
+// link. The link must be the parent itself — a *box the function received or a box it owns — never the address of
+// a by-value copy (a value receiver or value parameter spilled to a local): charging a copy leaves the real parent
+// believing its payload is unread.
+func ruleOuterLink(p *Prog, r *Report, sp *ssa.Package) {
+	n := 0
+	for _, f := range pkgFns(sp, p) {
+		eachInstr(f, func(_ *ssa.BasicBlock, _ int, in ssa.Instruction) {
+			st, v, ok := boxFieldStore(in, "outer")
+			_ = v
+			if !ok {
+				return
+			}
+			n++
+			key := fmt.Sprintf("%s | box.outer = %s", fnName(f), shortVal(st.Val))
+			at := p.posStr(instrPos(st))
+			bad := ""
+			if al, isAlloc := st.Val.(*ssa.Alloc); isAlloc {
+				for _, rf := range refs(al) {
+					if s2, ok := rf.(*ssa.Store); ok && s2.Addr == ssa.Value(al) {
+						if prm, ok := s2.Val.(*ssa.Parameter); ok {
+							if _, isPtr := prm.Type().Underlying().(*types.Pointer); !isPtr {
+								bad = fmt.Sprintf("the link points at the local copy of the by-value parameter %s, not at the box the caller holds", prm.Name())
+							}
+						}
+					}
+				}
+			}
+			if bad != "" {
+				r.Bad("BOXCOPY", key, at, bad+": bytes consumed through the child are charged to the copy")
+			} else {
+				r.OK("BOXCOPY", key, at, "the link is the parent box itself")
+			}
+		})
+	}
+	r.Extra("outer_links", n)
+}
